@@ -220,6 +220,10 @@ def run(rep: Report):
     tier = rep.tier
     opts = {"prove_timeout_ms": 10000, "fork_timeout_ms": 2000, "seed": rep.seed, "scenario_wall_s": 240 if tier == "quick" else 1500}
     run_plan(rep, _plan(tier), SCENARIOS, opts)
+    if tier == "thorough":
+        from ..runner import run_crosshair
+
+        run_crosshair(rep, "ch_c15")
     rep.bounds = {"observer intervals": "symbolic in [-3,3] \\ {0}, one or two observers", "segments": "a, b symbolic in [0,2] (quick) / [0,3]", "entry points": "run, srun, irun", "drivers": "MonteCarlo (empty move table) and ForceBias"}
     rep.assumptions = ["the content of a step is abstracted (empty move table / zero forces): its content is C03-C06's subject", "the log stream is a recording object; text formatting runs concretely"]
     rep.stubs = ["RecObserver, RecStream, ZeroCalc"]
